@@ -638,3 +638,10 @@ def rule_X10(ctx, targets, maxlen=26, x12=None, truncate=None):
     res.discharged += nund
     res.analysed.update({'decoders': nfn, 'outputs_x_paths_x_lengths': npath, 'undecided': nund})
     return res, nfn, npath
+
+
+def rule_X12(ctx, _files=None):
+    """X12 on its own (selftest/run_rules.py): the result comes out of the X10 exploration."""
+    from ..props import _x12
+    r = _x12(ctx)
+    return r, r.obligations
